@@ -54,6 +54,8 @@ type Profile struct {
 	UnregInCbPct       int
 	MaxBatchNew        int
 	ShrinkLockedOK     bool
+	RelObsPct          int             // share of observers that are OnAddRelations observers
+	RelBatchPct        int             // share of batch creations with one relation component through Map[T]
 	LeakPct            int             // chance that a batch-creation callback opens a query and leaves it open
 	NoShrink           bool            // avoid Shrink entirely (known finding avoid rule)
 	HotFixed           []int           // if set, the hot component set
@@ -597,6 +599,12 @@ func (g *Gen) make(k Kind) *Op {
 					op.Add = nil
 				}
 			}
+		}
+		if k == KNewBatch && P.RelBatchPct > 0 && R.Chance(P.RelBatchPct) {
+			// a batch of entities with a single relation component through Map[T]
+			op.Tuple = -1
+			op.Path = PMap1
+			op.Add = []int{u.RelIdx[R.Intn(3)]}
 		}
 		op.Vals = g.vals(len(op.Add))
 		op.Rels = g.relsFor(op.Add, -2)
@@ -1151,6 +1159,9 @@ func (g *Gen) obsSpec() *ObsSpec {
 	R := g.R
 	o := &ObsSpec{Tuple: -1, UnregOther: -1}
 	o.Ev = EvType(R.Intn(int(NEv)))
+	if g.P.RelObsPct > 0 && R.Chance(g.P.RelObsPct) {
+		o.Ev = EvAddRel // relation observers without a creation observer next to them are a lock path of their own
+	}
 	relEv := o.Ev == EvAddRel || o.Ev == EvRemoveRel
 	if R.Chance(g.P.TypedPct) {
 		t := g.tupleWhere(func(t int, cs []int) bool {
